@@ -473,7 +473,7 @@ class MonC03(object):
         n = min([len(t.state_record_list) for t in tasks] or [0])
         for kind, resources, rec_attr in (("worker", all_workers(project), "allocated_worker_id_record"),
                                           ("facility", all_facilities(project), "allocated_facility_id_record")):
-            for k in range(n):
+            for k in range(tr.log_base, n):
                 holders = {}
                 for t in tasks:
                     rec = getattr(t, rec_attr)
@@ -632,9 +632,15 @@ class MonC06(object):
         self.st = started
         self.started_at = {}   # task -> first step at which it was seen started at 'recorded'
         self.rec = []
+        self.touched = set()   # ids of components whose placed_workplace was written in this step
+
+    def on_write(self, tr, obj, attr, old, new):
+        if attr == "placed_workplace":
+            self.touched.add(id(obj))
 
     def on_phase(self, tr, project, phase, snap):
         if phase == "recorded":
+            self.touched = set()
             for t, s in snap.tstate.items():
                 if t not in self.started_at and (s in (TS.WORKING, TS.FINISHED)):
                     self.started_at[t] = -1 if exempt(t) else snap.step
@@ -673,6 +679,8 @@ class MonC06(object):
                     up = tr.last.get("updated")
                     if up is None or up.cplace.get(c) is not wp:
                         continue
+                    if id(c) in self.touched:
+                        continue   # moved away and dragged back within this allocation pass
                 if any(workplace_of(project, f) is not wp for f in fs):
                     continue   # site inconsistency is C13's business
                 if not any(x is t for x in wp.targeted_task_list):
@@ -1203,7 +1211,7 @@ class MonC13(object):
         comps = project.product.component_list
         wps = project.organization.workplace_list
         n = min([len(c.placed_workplace_id_record) for c in comps] + [len(w.placed_component_id_record) for w in wps] or [0])
-        for k in range(n):
+        for k in range(tr.log_base, n):   # only the part of the logs written under this monitor
             listed = {}
             for w in wps:
                 for cid in (w.placed_component_id_record[k] or ()):
